@@ -1,2 +1,671 @@
+import NeatviVerif.Lemmas.C06Ex
+/-!
+# C06: ex line commands follow the reference line-editor semantics
+
+Everything is stated on the model (`Model/Lbuf.lean`, `Model/Ex.lean`, `Model/ExCmd.lean`), for all
+states and inputs.
+
+* `region_valid`, `region_invalid_pure`: address evaluation (`ex_region`) never touches the text, and a
+  successful evaluation yields a range inside the buffer;
+* `edit_frame`: the primitive `lbuf_edit` replaces the addressed range and nothing else;
+* `ec_*_spec`: per command, the frame law, the register / output / current-line effect, and
+  "return 1 ⇒ text unchanged" (`invalid_region_unchanged`, `invalid_region_rejected`);
+* `mark_stable`, `mark_in_deleted_range`: a mark keeps designating the same line while lines are added or
+  removed elsewhere.
+
+`lines ed` is the text of the current buffer, `optLines s` the lines of an optional C string
+(`none` = `NULL` = no lines), `AddrOnly ed ed'` says that `ed'` is `ed` up to `xrow`, `xkwd`, `xkwddir`.
+Command names are given as byte lists: `[97]` = `"a"`, `[105]` = `"i"`, `[99]` = `"c"`, `[48]` = `"0"`,
+`[37]` = `"%"`.
+-/
+set_option linter.unusedSimpArgs false
+
 namespace Neatvi.Props.C06
+open Neatvi Neatvi.Lbuf Neatvi.Ex Neatvi.Lemmas.C06
+open Neatvi.Lemmas.Hist (optLines)
+
+/-! ## 1. address evaluation -/
+
+/-- A successful `ex_region` leaves everything but `xrow` / the search keyword alone (in particular the
+    buffer table, hence the text) and returns `0 ≤ beg ≤ end ≤ len`.  For an explicit address other than
+    `%` the model even gives `beg < len` (address 0 yields `beg = end = 0` and still needs a non-empty
+    buffer to return 0; on an empty buffer it returns 1 with `beg = end = 0`, see `region_addr0_empty`),
+    which is stronger than the required `beg < len ∨ (beg = 0 ∧ end = 0)`. -/
+theorem region_valid (ed ed' : Ed) (loc : Bytes) (b e : Int)
+    (h : exRegion ed loc = some ((0, b, e), ed')) :
+    0 ≤ b ∧ b ≤ e ∧ e ≤ ed'.len ∧
+    ed'.bufs = ed.bufs ∧ ed'.lb = ed.lb ∧ lines ed' = lines ed ∧ ed'.len = ed.len ∧ AddrOnly ed ed' ∧
+    (loc ≠ [] → loc ≠ [37] → b < ed'.len) := by
+  obtain ⟨ha, _, hv, _⟩ := region_all ed loc 0 b e ed' h
+  obtain ⟨h1, h2, h3, h4⟩ := hv rfl
+  exact ⟨h1, h2, h3, ha.bufs, ha.lb, ha.lines, ha.len, ha, h4⟩
+
+/-- the literal form of the requirement -/
+theorem region_valid_disj (ed ed' : Ed) (loc : Bytes) (b e : Int)
+    (h : exRegion ed loc = some ((0, b, e), ed')) (h1 : loc ≠ []) (h2 : loc ≠ [37]) :
+    b < ed'.len ∨ (b = 0 ∧ e = 0) :=
+  Or.inl ((region_valid ed ed' loc b e h).2.2.2.2.2.2.2.2 h1 h2)
+
+/-- a failing `ex_region` is pure as well -/
+theorem region_invalid_pure (ed ed' : Ed) (loc : Bytes) (b e : Int)
+    (h : exRegion ed loc = some ((1, b, e), ed')) :
+    ed'.bufs = ed.bufs ∧ lines ed' = lines ed ∧ AddrOnly ed ed' := by
+  obtain ⟨ha, _, _, _⟩ := region_all ed loc 1 b e ed' h
+  exact ⟨ha.bufs, ha.lines, ha⟩
+
+/-- `ex_region` returns 0 or 1 -/
+theorem region_rc (ed ed' : Ed) (loc : Bytes) (rc : Nat) (b e : Int)
+    (h : exRegion ed loc = some ((rc, b, e), ed')) : rc = 0 ∨ rc = 1 :=
+  (region_all ed loc rc b e ed' h).2.1
+
+/-- a failure that still reports `beg = end = 0` (what `ec_insert` lets through) means the buffer is empty -/
+theorem region_addr0_empty (ed ed' : Ed) (loc : Bytes) (h : exRegion ed loc = some ((1, 0, 0), ed')) :
+    ed.len = 0 := by
+  have ha := (region_all ed loc 1 0 0 ed' h).1
+  rw [← ha.len]
+  exact region_fail00 ed loc ed' h
+
+/-! ## 2. the frame law of the primitive -/
+
+/-- the new lines: none for `NULL`, else the text split at newlines -/
+theorem optLines_def (s : Option Bytes) :
+    optLines s = match s with | none => [] | some x => splitLines x := rfl
+
+/-- `lbuf_edit(xb, s, b, e)` with `0 ≤ b ≤ e ≤ len`: only the addressed range is replaced, every other
+    line keeps its bytes and order -/
+theorem edit_frame (ed ed' : Ed) (s : Option Bytes) (b e : Int) (hb : 0 ≤ b) (hbe : b ≤ e) (he : e ≤ ed.len)
+    (h : ed.edit s b e = some ed') :
+    lines ed' = (lines ed).take b.toNat ++ optLines s ++ (lines ed).drop e.toNat ∧
+    ed'.len = ed.len - (e - b) + ((optLines s).length : Int) :=
+  ed_edit_frame ed ed' s b e hb hbe he h
+
+/-- and nothing outside the buffer table changes -/
+theorem edit_frame_fields (ed ed' : Ed) (s : Option Bytes) (b e : Int) (h : ed.edit s b e = some ed') :
+    ed' = { ed with bufs := ed'.bufs } := edit_fields ed ed' s b e h
+
+/-! ## 3. the commands -/
+
+theorem cp_eq (ed : Ed) (b e : Int) :
+    ed.cp b e = (((lines ed).drop b.toNat).take (e.toNat - b.toNat)).flatten := by
+  unfold Ed.cp lines Lbuf.cp
+  cases ed.lb <;> simp
+
+/-- `:d`: on success the addressed lines are removed, the current line is `beg`, the register named by
+    the argument received the removed lines; on failure nothing changes -/
+theorem ec_delete_spec (f : Nat) (ed ed' : Ed) (loc cmd arg : Bytes) (txt : Option Bytes) (rc : Int)
+    (h : runCmd (f + 1) ed "ec_delete" loc cmd arg txt = some (rc, ed')) :
+    (rc = 0 ∨ rc = 1) ∧
+    (rc = 0 → ∃ b e ed1, exRegion ed loc = some ((0, b, e), ed1) ∧ 0 ≤ b ∧ b ≤ e ∧ e ≤ ed.len ∧
+      lines ed' = (lines ed).take b.toNat ++ (lines ed).drop e.toNat ∧ ed'.xrow = b ∧
+      ed'.regs = ed.regs.put (regName arg) (((lines ed).drop b.toNat).take (e.toNat - b.toNat)).flatten 1) ∧
+    (rc = 1 → lines ed' = lines ed ∧ ed'.regs = ed.regs ∧ AddrOnly ed ed') := by
+  rw [runCmd] at h
+  simp only [String.reduceBEq, Bool.false_eq_true, ↓reduceIte, Bool.or_false, Bool.or_self] at h
+  split at h
+  · cases h
+  · rename_i rc0 b e ed1 hreg
+    obtain ⟨ha, hrc, hv, _⟩ := region_all _ _ _ _ _ _ hreg
+    split at h
+    · cases h
+      exact ⟨Or.inr rfl, fun h => by omega, fun _ => ⟨ha.lines, ha.regs, ha⟩⟩
+    · rename_i hc
+      simp only [Bool.or_eq_true, bne_iff_ne, ne_eq, beq_iff_eq, not_or, Decidable.not_not] at hc
+      obtain ⟨hc1, hc2⟩ := hc
+      subst hc1
+      obtain ⟨v1, v2, v3, _⟩ := hv rfl
+      split at h
+      · cases h
+      · rename_i ed2 hed
+        cases h
+        have hfr := ed_edit_frame _ _ _ _ _ v1 v2 (by exact v3) hed
+        have hfl := edit_fields _ _ _ _ _ hed
+        refine ⟨Or.inl rfl, fun _ => ⟨b, e, ed1, hreg, v1, v2, by rw [← ha.len]; exact v3, ?_, rfl, ?_⟩, fun h => by omega⟩
+        · have h1 := hfr.1
+          simp only [optLines, List.append_nil] at h1
+          rw [← ha.lines]
+          exact h1
+        · have h2 := congrArg Ed.regs hfl
+          simp only [] at h2
+          rw [← ha.regs, ← ha.lines, ← cp_eq]
+          exact h2
+
+/-- `:y`: the text never changes; on success the register received the addressed lines -/
+theorem ec_yank_spec (f : Nat) (ed ed' : Ed) (loc cmd arg : Bytes) (txt : Option Bytes) (rc : Int)
+    (h : runCmd (f + 1) ed "ec_yank" loc cmd arg txt = some (rc, ed')) :
+    (rc = 0 ∨ rc = 1) ∧ lines ed' = lines ed ∧
+    (rc = 0 → ∃ b e ed1, exRegion ed loc = some ((0, b, e), ed1) ∧ 0 ≤ b ∧ b ≤ e ∧ e ≤ ed.len ∧
+      ed'.regs = ed.regs.put (regName arg) (((lines ed).drop b.toNat).take (e.toNat - b.toNat)).flatten 1) ∧
+    (rc = 1 → ed'.regs = ed.regs ∧ AddrOnly ed ed') := by
+  rw [runCmd] at h
+  simp only [String.reduceBEq, Bool.false_eq_true, ↓reduceIte, Bool.or_true] at h
+  split at h
+  · cases h
+  · rename_i rc0 b e ed1 hreg
+    obtain ⟨ha, hrc, hv, _⟩ := region_all _ _ _ _ _ _ hreg
+    split at h
+    · cases h
+      exact ⟨Or.inr rfl, ha.lines, fun h => by omega, fun _ => ⟨ha.regs, ha⟩⟩
+    · rename_i hc
+      simp only [Bool.or_eq_true, bne_iff_ne, ne_eq, beq_iff_eq, not_or, Decidable.not_not] at hc
+      obtain ⟨hc1, hc2⟩ := hc
+      subst hc1
+      obtain ⟨v1, v2, v3, _⟩ := hv rfl
+      cases h
+      refine ⟨Or.inl rfl, ha.lines, fun _ => ⟨b, e, ed1, hreg, v1, v2, by rw [← ha.len]; exact v3, ?_⟩, fun h => by omega⟩
+      show ed1.regs.put (regName arg) (ed1.cp b e) 1 = _
+      rw [ha.regs, cp_eq, ha.lines]
+
+/-- `:a`, `:i`, `:c` (any command dispatched to `ec_insert`; the first byte of the command name selects the
+    variant): on success the text goes to `p..q` where `(p, q) = (end, end)` for `a`, `(beg, beg)` for `i`,
+    `(beg, end)` for `c`; `ec_insert` proceeds when `ex_region` succeeded or reported `beg = end = 0`
+    (address 0 on an empty buffer).  The current line becomes the last new line.
+    If 1 is returned nothing but the address side effects happened. -/
+theorem ec_insert_spec (f : Nat) (ed ed' : Ed) (loc cmd arg : Bytes) (txt : Option Bytes) (rc : Int)
+    (h : runCmd (f + 1) ed "ec_insert" loc cmd arg txt = some (rc, ed')) :
+    (rc = 0 ∨ rc = 1) ∧
+    (rc = 0 → ∃ r b e ed1, exRegion ed loc = some ((r, b, e), ed1) ∧ (r = 0 ∨ (b = 0 ∧ e = 0)) ∧
+      0 ≤ b ∧ b ≤ e ∧ e ≤ ed.len ∧
+      ∀ p q, p = (if cmd.headD 0 = 97 then e else b) → q = (if cmd.headD 0 = 99 then e else p) →
+        lines ed' = (lines ed).take p.toNat ++ optLines txt ++ (lines ed).drop q.toNat ∧
+        ed'.len = ed.len - (q - p) + (optLines txt).length ∧
+        ed'.xrow = min (ed'.len - 1) (p + (optLines txt).length - 1)) ∧
+    (rc = 1 → lines ed' = lines ed ∧ AddrOnly ed ed') := by
+  rw [runCmd] at h
+  simp only [String.reduceBEq, ↓reduceIte] at h
+  split at h
+  · cases h
+  · rename_i rc0 b e ed1 hreg
+    obtain ⟨ha, hrc, hv, _⟩ := region_all _ _ _ _ _ _ hreg
+    split at h
+    · cases h
+      exact ⟨Or.inr rfl, fun h => by omega, fun _ => ⟨ha.lines, ha⟩⟩
+    · rename_i hc
+      have hl1 := len_nonneg ed1
+      have hbnd : (rc0 = 0 ∨ (b = 0 ∧ e = 0)) ∧ 0 ≤ b ∧ b ≤ e ∧ e ≤ ed1.len := by
+        by_cases h0 : rc0 = 0
+        · obtain ⟨v1, v2, v3, _⟩ := hv h0
+          exact ⟨Or.inl h0, v1, v2, v3⟩
+        · simp only [Bool.and_eq_true, bne_iff_ne, ne_eq, Bool.or_eq_true, not_and, not_or, Decidable.not_not] at hc
+          obtain ⟨hb0, he0⟩ := hc h0
+          exact ⟨Or.inr ⟨hb0, he0⟩, by omega, by omega, by omega⟩
+      obtain ⟨hor, v1, v2, v3⟩ := hbnd
+      split at h
+      · cases h
+      · rename_i ed2 hed
+        simp only [Option.some.injEq, Prod.mk.injEq] at h
+        obtain ⟨hrc', hed'⟩ := h
+        subst hrc'
+        have e1 : lines ed' = lines ed2 := by rw [← hed']; rfl
+        have e2 : ed'.len = ed2.len := by rw [← hed']; rfl
+        have e3 : ed'.xrow = min (ed2.len - 1)
+            ((if (cmd.headD 0 != 99) = true then (if (cmd.headD 0 == 97) = true then e else b) else e) + ed2.len - ed1.len - 1) := by
+          rw [← hed']
+        refine ⟨Or.inl rfl, fun _ => ⟨rc0, b, e, ed1, hreg, hor, v1, v2, by rw [← ha.len]; exact v3, ?_⟩, fun h => by omega⟩
+        intro p q hp hq
+        have hpq : (if (cmd.headD 0 == 97) = true then e else b) = p ∧
+            (if (cmd.headD 0 != 99) = true then (if (cmd.headD 0 == 97) = true then e else b) else e) = q := by
+          subst hp; subst hq
+          by_cases c1 : cmd.headD 0 = 97
+          · have c2 : cmd.headD 0 ≠ 99 := by omega
+            simp [c1]
+          · by_cases c2 : cmd.headD 0 = 99
+            · simp [c2]
+            · simp [c1, c2]
+        rw [hpq.2] at hed e3
+        rw [hpq.1] at hed
+        have hp0 : 0 ≤ p ∧ p ≤ q ∧ q ≤ ed1.len := by
+          subst hp; subst hq
+          by_cases c1 : cmd.headD 0 = 97
+          · have c2 : cmd.headD 0 ≠ 99 := by omega
+            simp only [c1, c2, if_true, if_false]; omega
+          · by_cases c2 : cmd.headD 0 = 99
+            · simp only [c1, c2, if_true, if_false]; omega
+            · simp only [c1, c2, if_false]; omega
+        have hfr := ed_edit_frame _ _ _ _ _ hp0.1 hp0.2.1 hp0.2.2 hed
+        rw [ha.lines, ha.len] at hfr
+        refine ⟨e1.trans hfr.1, e2.trans hfr.2, ?_⟩
+        rw [e3, e2, hfr.2, ha.len]
+        congr 1
+        omega
+
+/-- `:a` -/
+theorem ec_append_spec (f : Nat) (ed ed' : Ed) (loc arg : Bytes) (txt : Option Bytes)
+    (h : runCmd (f + 1) ed "ec_insert" loc [97] arg txt = some (0, ed')) :
+    ∃ r b e ed1, exRegion ed loc = some ((r, b, e), ed1) ∧ 0 ≤ e ∧ e ≤ ed.len ∧
+      lines ed' = (lines ed).take e.toNat ++ optLines txt ++ (lines ed).drop e.toNat ∧
+      ed'.xrow = min (ed'.len - 1) (e + (optLines txt).length - 1) := by
+  obtain ⟨r, b, e, ed1, h1, _, h3, h4, h5, h6⟩ := (ec_insert_spec f ed ed' loc [97] arg txt 0 h).2.1 rfl
+  obtain ⟨k1, _, k3⟩ := h6 e e (by simp) (by simp)
+  exact ⟨r, b, e, ed1, h1, by omega, h5, k1, k3⟩
+
+/-- `:i` -/
+theorem ec_insert_i_spec (f : Nat) (ed ed' : Ed) (loc arg : Bytes) (txt : Option Bytes)
+    (h : runCmd (f + 1) ed "ec_insert" loc [105] arg txt = some (0, ed')) :
+    ∃ r b e ed1, exRegion ed loc = some ((r, b, e), ed1) ∧ 0 ≤ b ∧ b ≤ ed.len ∧
+      lines ed' = (lines ed).take b.toNat ++ optLines txt ++ (lines ed).drop b.toNat ∧
+      ed'.xrow = min (ed'.len - 1) (b + (optLines txt).length - 1) := by
+  obtain ⟨r, b, e, ed1, h1, _, h3, h4, h5, h6⟩ := (ec_insert_spec f ed ed' loc [105] arg txt 0 h).2.1 rfl
+  obtain ⟨k1, _, k3⟩ := h6 b b (by simp) (by simp)
+  exact ⟨r, b, e, ed1, h1, h3, by omega, k1, k3⟩
+
+/-- `:c` -/
+theorem ec_change_spec (f : Nat) (ed ed' : Ed) (loc arg : Bytes) (txt : Option Bytes)
+    (h : runCmd (f + 1) ed "ec_insert" loc [99] arg txt = some (0, ed')) :
+    ∃ r b e ed1, exRegion ed loc = some ((r, b, e), ed1) ∧ 0 ≤ b ∧ b ≤ e ∧ e ≤ ed.len ∧
+      lines ed' = (lines ed).take b.toNat ++ optLines txt ++ (lines ed).drop e.toNat ∧
+      ed'.xrow = min (ed'.len - 1) (b + (optLines txt).length - 1) := by
+  obtain ⟨r, b, e, ed1, h1, _, h3, h4, h5, h6⟩ := (ec_insert_spec f ed ed' loc [99] arg txt 0 h).2.1 rfl
+  obtain ⟨k1, _, k3⟩ := h6 b e (by simp) (by simp)
+  exact ⟨r, b, e, ed1, h1, h3, h4, h5, k1, k3⟩
+
+/-- the address `0` evaluates to `beg = end = 0`; it is accepted (return 0) iff the buffer is non-empty -/
+theorem region_zero (ed : Ed) : exRegion ed [48] = some ((if ed.len ≤ 0 then 1 else 0, 0, 0), ed) := by
+  have hl := len_nonneg ed
+  unfold exRegion
+  simp [exRegion.go, exLineno, exLineno.offs, atoi, isDigitC, isSpaceC]
+  by_cases h : ed.len ≤ 0
+  · simp [h]
+  · have : ¬ (0 ≥ ed.len) := by omega
+    simp [h]
+    omega
+
+/-- `0a`: address 0 counts as "before the first line": with a current buffer the command succeeds and the
+    text lands at the very top, everything else following in order -/
+theorem addr0_is_before_first (f : Nat) (ed : Ed) (lb : Lb) (arg : Bytes) (txt : Option Bytes)
+    (hlb : ed.lb = some lb) :
+    ∃ ed', runCmd (f + 1) ed "ec_insert" [48] [97] arg txt = some (0, ed') ∧
+      lines ed' = optLines txt ++ lines ed ∧
+      ed'.xrow = min (ed'.len - 1) (((optLines txt).length : Int) - 1) := by
+  obtain ⟨ed2, hed⟩ := ed_edit_total ed lb txt 0 0 hlb (by omega) (by omega)
+  have hrun : runCmd (f + 1) ed "ec_insert" [48] [97] arg txt =
+      some (0, { ed2 with xrow := min (ed2.len - 1) (0 + ed2.len - ed.len - 1) }) := by
+    rw [runCmd]
+    simp only [String.reduceBEq, ↓reduceIte, region_zero]
+    simp [hed]
+  refine ⟨_, hrun, ?_⟩
+  obtain ⟨r, b, e, ed1, h1, _, _, _, _, h6⟩ := (ec_insert_spec f ed _ [48] [97] arg txt 0 hrun).2.1 rfl
+  rw [region_zero] at h1
+  simp only [Option.some.injEq, Prod.mk.injEq] at h1
+  obtain ⟨⟨_, hb, he⟩, _⟩ := h1
+  subst hb; subst he
+  obtain ⟨k1, _, k3⟩ := h6 0 0 (by simp) (by simp)
+  refine ⟨by simpa using k1, ?_⟩
+  rw [k3]; simp
+
+/-- `:pu`: on success the register text goes after line `end - 1`; an unset register or an invalid
+    address give 1 with the text unchanged -/
+theorem ec_put_spec (f : Nat) (ed ed' : Ed) (loc cmd arg : Bytes) (txt : Option Bytes) (rc : Int)
+    (h : runCmd (f + 1) ed "ec_put" loc cmd arg txt = some (rc, ed')) :
+    (rc = 0 ∨ rc = 1) ∧
+    (rc = 0 → ∃ buf b e ed1, regGet ed (regName arg) = some buf ∧ exRegion ed loc = some ((0, b, e), ed1) ∧
+      0 ≤ e ∧ e ≤ ed.len ∧
+      lines ed' = (lines ed).take e.toNat ++ splitLines buf ++ (lines ed).drop e.toNat ∧
+      ed'.xrow = min (ed'.len - 1) (e + (splitLines buf).length - 1)) ∧
+    (rc = 1 → lines ed' = lines ed ∧ AddrOnly ed ed') ∧
+    (regGet ed (regName arg) = none → rc = 1 ∧ ed' = ed) := by
+  rw [runCmd] at h
+  simp only [String.reduceBEq, Bool.false_eq_true, ↓reduceIte, Bool.or_false, Bool.or_self] at h
+  split at h
+  · rename_i hg
+    cases h
+    exact ⟨Or.inr rfl, fun h => by omega, fun _ => ⟨rfl, AddrOnly.refl _⟩, fun _ => ⟨rfl, rfl⟩⟩
+  · rename_i buf hg
+    split at h
+    · cases h
+    · rename_i rc0 b e ed1 hreg
+      obtain ⟨ha, hrc, hv, _⟩ := region_all _ _ _ _ _ _ hreg
+      split at h
+      · cases h
+        exact ⟨Or.inr rfl, fun h => by omega, fun _ => ⟨ha.lines, ha⟩, fun hn => by rw [hn] at hg; cases hg⟩
+      · rename_i hc
+        simp only [bne_iff_ne, ne_eq, Decidable.not_not] at hc
+        subst hc
+        obtain ⟨v1, v2, v3, _⟩ := hv rfl
+        split at h
+        · cases h
+        · rename_i ed2 hed
+          simp only [Option.some.injEq, Prod.mk.injEq] at h
+          obtain ⟨hrc', hed'⟩ := h
+          subst hrc'
+          have e1 : lines ed' = lines ed2 := by rw [← hed']; rfl
+          have e2 : ed'.len = ed2.len := by rw [← hed']; rfl
+          have e3 : ed'.xrow = min (ed2.len - 1) (e + ed2.len - ed1.len - 1) := by rw [← hed']
+          have hfr := ed_edit_frame _ _ _ _ _ (by omega) (Int.le_refl e) v3 hed
+          rw [ha.lines, ha.len] at hfr
+          refine ⟨Or.inl rfl, fun _ => ⟨buf, b, e, ed1, hg, hreg, by omega, by rw [← ha.len]; exact v3, e1.trans hfr.1, ?_⟩,
+            fun h => by omega, fun hn => by rw [hn] at hg; cases hg⟩
+          rw [e3, e2, hfr.2, ha.len]
+          simp only [optLines]
+          congr 1
+          omega
+
+/-- `:p`: the text never changes; on success the output grows by exactly the lines `beg..end` in order
+    (each through `ex_print`, which adds a newline to a line lacking one) and the current line is the last
+    printed one -/
+theorem ec_print_spec (f : Nat) (ed ed' : Ed) (loc cmd arg : Bytes) (txt : Option Bytes) (rc : Int)
+    (h : runCmd (f + 1) ed "ec_print" loc cmd arg txt = some (rc, ed')) :
+    (rc = 0 ∨ rc = 1) ∧ lines ed' = lines ed ∧
+    (rc = 0 → ∃ b e ed1, exRegion ed loc = some ((0, b, e), ed1) ∧ 0 ≤ b ∧ b ≤ e ∧ e ≤ ed.len ∧
+      ed'.out = ed.out ++ (((lines ed).drop b.toNat).take (e.toNat - b.toNat)).flatMap printed ∧
+      ed'.xrow = max b (e - 1)) ∧
+    (rc = 1 → ed'.out = ed.out ∧ AddrOnly ed ed') := by
+  rw [runCmd] at h
+  simp only [String.reduceBEq, Bool.false_eq_true, ↓reduceIte, Bool.or_false, Bool.or_self] at h
+  split at h
+  · cases h
+    exact ⟨Or.inr rfl, rfl, fun h => by omega, fun _ => ⟨rfl, AddrOnly.refl _⟩⟩
+  · split at h
+    · cases h
+    · rename_i rc0 b e ed1 hreg
+      obtain ⟨ha, hrc, hv, _⟩ := region_all _ _ _ _ _ _ hreg
+      split at h
+      · cases h
+        exact ⟨Or.inr rfl, ha.lines, fun h => by omega, fun _ => ⟨ha.out, ha⟩⟩
+      · rename_i hc
+        simp only [bne_iff_ne, ne_eq, Decidable.not_not] at hc
+        subst hc
+        obtain ⟨v1, v2, v3, _⟩ := hv rfl
+        obtain ⟨bn, rfl⟩ : ∃ bn : Nat, b = (bn : Int) := ⟨b.toNat, by omega⟩
+        have hloop := print_loop ed1 bn (e - (bn : Int)).toNat (by have := len_eq ed1; omega)
+        generalize hfold : List.foldl _ ed1 (List.range (e - (bn : Int)).toNat) = edF at h
+        have hF : edF = _ := hfold.symm.trans hloop
+        subst hF
+        cases h
+        refine ⟨Or.inl rfl, ha.lines, fun _ => ⟨bn, e, ed1, hreg, v1, v2, by rw [← ha.len]; exact v3, ?_, rfl⟩, fun h => by omega⟩
+        show ed1.out ++ _ = _
+        rw [ha.out, ha.lines]
+        congr 3
+        omega
+
+/-- on a buffer whose lines all end in their newline (what `lbuf_replace` produces, `C01.lines_wf`), the
+    printed bytes are the lines themselves, i.e. `lbuf_cp(xb, beg, end)` -/
+theorem printed_wf (ls : List Bytes) (h : ∀ l ∈ ls, Props.C01.WfLine l) : ls.flatMap printed = ls.flatten := by
+  induction ls with
+  | nil => rfl
+  | cons l r ih =>
+    obtain ⟨w, hw, _⟩ := h l (by simp)
+    rw [List.flatMap_cons, List.flatten_cons, ih (fun x hx => h x (by simp [hx]))]
+    congr 1
+    subst hw
+    simp [printed]
+
+theorem ec_print_wf (f : Nat) (ed ed' : Ed) (loc cmd arg : Bytes) (txt : Option Bytes)
+    (hwf : ∀ l ∈ lines ed, Props.C01.WfLine l)
+    (h : runCmd (f + 1) ed "ec_print" loc cmd arg txt = some (0, ed')) :
+    ∃ b e ed1, exRegion ed loc = some ((0, b, e), ed1) ∧ ed'.out = ed.out ++ ed.cp b e := by
+  obtain ⟨b, e, ed1, h1, _, _, _, h5, _⟩ := (ec_print_spec f ed ed' loc cmd arg txt 0 h).2.2.1 rfl
+  refine ⟨b, e, ed1, h1, ?_⟩
+  rw [h5, cp_eq, printed_wf]
+  intro l hl
+  exact hwf l (List.mem_of_mem_drop (List.mem_of_mem_take hl))
+
+/-- `:=`: the text never changes; on success prints `end` -/
+theorem ec_lnum_spec (f : Nat) (ed ed' : Ed) (loc cmd arg : Bytes) (txt : Option Bytes) (rc : Int)
+    (h : runCmd (f + 1) ed "ec_lnum" loc cmd arg txt = some (rc, ed')) :
+    (rc = 0 ∨ rc = 1) ∧ lines ed' = lines ed ∧
+    (rc = 0 → ∃ b e ed1, exRegion ed loc = some ((0, b, e), ed1) ∧ ed'.out = ed.out ++ intStr e ++ [10]) ∧
+    (rc = 1 → ed'.out = ed.out ∧ AddrOnly ed ed') := by
+  rw [runCmd] at h
+  simp only [String.reduceBEq, Bool.false_eq_true, ↓reduceIte, Bool.or_false, Bool.or_self] at h
+  split at h
+  · cases h
+  · rename_i rc0 b e ed1 hreg
+    obtain ⟨ha, hrc, hv, _⟩ := region_all _ _ _ _ _ _ hreg
+    split at h
+    · cases h
+      exact ⟨Or.inr rfl, ha.lines, fun h => by omega, fun _ => ⟨ha.out, ha⟩⟩
+    · rename_i hc
+      simp only [bne_iff_ne, ne_eq, Decidable.not_not] at hc
+      subst hc
+      cases h
+      refine ⟨Or.inl rfl, ha.lines, fun _ => ⟨b, e, ed1, hreg, ?_⟩, fun h => by omega⟩
+      show ed1.out ++ (intStr e ++ [10]) ++ _ = _
+      rw [ha.out]
+      simp
+
+/-- `:k`: the text never changes; on success the mark named by the first byte of the argument is set to
+    line `end - 1`, column 0 -/
+theorem ec_mark_spec (f : Nat) (ed ed' : Ed) (loc cmd arg : Bytes) (txt : Option Bytes) (rc : Int)
+    (h : runCmd (f + 1) ed "ec_mark" loc cmd arg txt = some (rc, ed')) :
+    (rc = 0 ∨ rc = 1) ∧ lines ed' = lines ed ∧
+    (rc = 0 → ∃ b e ed1 lb, exRegion ed loc = some ((0, b, e), ed1) ∧ ed.lb = some lb ∧
+      ed'.lb = some (setMark lb (arg.headD 0) (e - 1) 0)) ∧
+    (rc = 1 → AddrOnly ed ed') := by
+  rw [runCmd] at h
+  simp only [String.reduceBEq, Bool.false_eq_true, ↓reduceIte, Bool.or_false, Bool.or_self] at h
+  split at h
+  · cases h
+  · rename_i rc0 b e ed1 hreg
+    obtain ⟨ha, hrc, hv, _⟩ := region_all _ _ _ _ _ _ hreg
+    split at h
+    · cases h
+      exact ⟨Or.inr rfl, ha.lines, fun h => by omega, fun _ => ha⟩
+    · rename_i hc
+      simp only [bne_iff_ne, ne_eq, Decidable.not_not] at hc
+      subst hc
+      split at h
+      · cases h
+      · rename_i lb hlb
+        cases h
+        have hlb' := setLb_lb ed1 lb (setMark lb (arg.headD 0) (e - 1) 0) hlb
+        refine ⟨Or.inl rfl, ?_, fun _ => ⟨b, e, ed1, lb, hreg, by rw [← ha.lb]; exact hlb, hlb'⟩, fun h => by omega⟩
+        rw [lines_of_lb hlb', Props.C01.setMark_lines, ← lines_of_lb hlb, ha.lines]
+
+/-- the mark just set is the one `'x` finds (for a mark table of the proper size) -/
+theorem setMark_jump (lb : Lb) (c : Nat) (p : Int) (i : Nat) (hc : markIdx c = some i)
+    (h1 : i < lb.mark.length) (h2 : i < lb.markOff.length) :
+    jump (setMark lb c p 0) c = if p < 0 then none else some (p, 0) := by
+  unfold jump setMark
+  simp only [hc]
+  simp [List.getD_eq_getElem?_getD, h1, h2]
+
+/-- `:rs`: stores the text in a register, nothing else -/
+theorem ec_rs_spec (f : Nat) (ed ed' : Ed) (loc cmd arg : Bytes) (txt : Option Bytes) (rc : Int)
+    (h : runCmd (f + 1) ed "ec_rs" loc cmd arg txt = some (rc, ed')) :
+    rc = 0 ∧ lines ed' = lines ed ∧ ed'.regs = ed.regs.put (regName arg) (txt.getD []) 1 := by
+  rw [runCmd] at h
+  simp only [String.reduceBEq, Bool.false_eq_true, ↓reduceIte, Bool.or_false, Bool.or_self] at h
+  cases h
+  exact ⟨rfl, rfl, rfl⟩
+
+/-- the commands covered by C06 that go through `runCmd` -/
+def lineHandlers : List String :=
+  ["ec_insert", "ec_delete", "ec_yank", "ec_put", "ec_print", "ec_lnum", "ec_mark", "ec_rs"]
+
+/-- a line command that returns 1 left the text of the buffer unchanged -/
+theorem invalid_region_unchanged (f : Nat) (ed ed' : Ed) (hd : String) (loc cmd arg : Bytes) (txt : Option Bytes)
+    (hh : hd ∈ lineHandlers) (h : runCmd (f + 1) ed hd loc cmd arg txt = some (1, ed')) :
+    lines ed' = lines ed := by
+  simp only [lineHandlers, List.mem_cons, List.not_mem_nil, or_false] at hh
+  rcases hh with rfl | rfl | rfl | rfl | rfl | rfl | rfl | rfl
+  · exact ((ec_insert_spec f ed ed' loc cmd arg txt 1 h).2.2 rfl).1
+  · exact ((ec_delete_spec f ed ed' loc cmd arg txt 1 h).2.2 rfl).1
+  · exact (ec_yank_spec f ed ed' loc cmd arg txt 1 h).2.1
+  · exact ((ec_put_spec f ed ed' loc cmd arg txt 1 h).2.2.1 rfl).1
+  · exact (ec_print_spec f ed ed' loc cmd arg txt 1 h).2.1
+  · exact (ec_lnum_spec f ed ed' loc cmd arg txt 1 h).2.1
+  · exact (ec_mark_spec f ed ed' loc cmd arg txt 1 h).2.1
+  · exact (ec_rs_spec f ed ed' loc cmd arg txt 1 h).2.1
+
+/-- an address that does not resolve to existing lines makes the command return 1, text unchanged
+    (`ec_insert` lets `beg = end = 0` through: address 0 on an empty buffer) -/
+theorem invalid_region_rejected (f : Nat) (ed ed1 : Ed) (hd : String) (loc cmd arg : Bytes) (txt : Option Bytes)
+    (b e : Int)
+    (hh : hd ∈ ["ec_insert", "ec_delete", "ec_yank", "ec_put", "ec_print", "ec_lnum", "ec_mark"])
+    (hreg : exRegion ed loc = some ((1, b, e), ed1)) (hins : hd = "ec_insert" → ¬ (b = 0 ∧ e = 0)) :
+    ∃ ed', runCmd (f + 1) ed hd loc cmd arg txt = some (1, ed') ∧ lines ed' = lines ed := by
+  have ha := (region_all _ _ _ _ _ _ hreg).1
+  simp only [List.mem_cons, List.not_mem_nil, or_false] at hh
+  rcases hh with rfl | rfl | rfl | rfl | rfl | rfl | rfl
+  · have hbe : ((b != 0 || e != 0) = true) := by
+      have := hins rfl
+      simp only [Bool.or_eq_true, bne_iff_ne, ne_eq]
+      omega
+    refine ⟨ed1, ?_, ha.lines⟩
+    rw [runCmd]
+    simp only [String.reduceBEq, ↓reduceIte, hreg]
+    simp [hbe]
+  · refine ⟨ed1, ?_, ha.lines⟩
+    rw [runCmd]
+    simp only [String.reduceBEq, Bool.false_eq_true, ↓reduceIte, Bool.or_false, hreg]
+    simp
+  · refine ⟨ed1, ?_, ha.lines⟩
+    rw [runCmd]
+    simp only [String.reduceBEq, Bool.false_eq_true, ↓reduceIte, Bool.or_true, hreg]
+    simp
+  · cases hg : regGet ed (regName arg) with
+    | none =>
+      refine ⟨ed, ?_, rfl⟩
+      rw [runCmd]
+      simp only [String.reduceBEq, Bool.false_eq_true, ↓reduceIte, Bool.or_false, hg]
+    | some buf =>
+      refine ⟨ed1, ?_, ha.lines⟩
+      rw [runCmd]
+      simp only [String.reduceBEq, Bool.false_eq_true, ↓reduceIte, Bool.or_false, hg, hreg]
+      simp
+  · by_cases hpre : (cmd.isEmpty && loc.isEmpty && decide (ed.xrow ≥ ed.len)) = true
+    · refine ⟨ed, ?_, rfl⟩
+      rw [runCmd]
+      simp only [String.reduceBEq, Bool.false_eq_true, ↓reduceIte, hpre]
+    · refine ⟨ed1, ?_, ha.lines⟩
+      rw [runCmd]
+      simp only [String.reduceBEq, Bool.false_eq_true, ↓reduceIte, hpre, hreg]
+      simp
+  · refine ⟨ed1, ?_, ha.lines⟩
+    rw [runCmd]
+    simp only [String.reduceBEq, Bool.false_eq_true, ↓reduceIte, hreg]
+    simp
+  · refine ⟨ed1, ?_, ha.lines⟩
+    rw [runCmd]
+    simp only [String.reduceBEq, Bool.false_eq_true, ↓reduceIte, hreg]
+    simp
+
+/-! ## 4. marks -/
+
+/-- the mark update of a splice at `pos` deleting `nDel` and inserting `nIns` lines: a mark above the splice
+    is unchanged, a mark at or below its end moves by `nIns - nDel` -/
+theorem mark_stable_updMark (nul : Bool) (pos nIns nDel : Nat) (m : Int) :
+    (m < pos → updMark nul pos nIns nDel m = m) ∧
+    (m ≥ ((pos + nDel : Nat) : Int) → updMark nul pos nIns nDel m = m + nIns - nDel) :=
+  ⟨updMark_before nul pos nIns nDel m, updMark_after nul pos nIns nDel m⟩
+
+/-- a mark inside the replaced range: unset on a pure deletion (`s == NULL`), clamped to the last
+    inserted line otherwise -/
+theorem mark_in_deleted_range (pos nIns nDel : Nat) (m : Int) (h1 : (pos : Int) ≤ m) (h2 : m < (pos : Int) + nDel) :
+    updMark true pos nIns nDel m = -1 ∧
+    updMark false pos nIns nDel m = min m ((pos : Int) + nIns - 1) :=
+  ⟨updMark_deleted pos nIns nDel m h1 h2, updMark_replaced pos nIns nDel m h1 h2⟩
+
+/-- `lbuf_replace` on a user mark `a`–`z` (index `i < 26`; in fact any index but those of `[` and `]`) -/
+theorem mark_stable_replace (lb lb' : Lb) (s : Option Bytes) (pos nDel i : Nat) (hi : i < 26)
+    (h : replace lb s pos nDel = some lb') :
+    lb'.markOff.getD i 0 = lb.markOff.getD i 0 ∧
+    lb'.mark.getD i (-1) = updMark s.isNone pos (optLines s).length nDel (lb.mark.getD i (-1)) ∧
+    (lb.mark.getD i (-1) < pos → lb'.mark.getD i (-1) = lb.mark.getD i (-1)) ∧
+    (lb.mark.getD i (-1) ≥ ((pos + nDel : Nat) : Int) →
+      lb'.mark.getD i (-1) = lb.mark.getD i (-1) + (optLines s).length - nDel) := by
+  obtain ⟨r1, r2⟩ := replace_mark lb lb' s pos nDel i h (by omega) (by omega)
+  refine ⟨r2, r1, fun hm => ?_, fun hm => ?_⟩
+  · rw [r1, updMark_before _ _ _ _ _ hm]
+  · rw [r1, updMark_after _ _ _ _ _ hm]
+
+theorem jump_letter (lb : Lb) (c : Nat) (h1 : 97 ≤ c) (h2 : c ≤ 122) :
+    jump lb c = if lb.mark.getD (c - 97) (-1) < 0 then none
+      else some (lb.mark.getD (c - 97) (-1), lb.markOff.getD (c - 97) 0) := by
+  unfold jump
+  rw [markIdx_letter c h1 h2]
+
+/-- `lbuf_edit` replacing lines `b..e` (inside the buffer): a mark `a`–`z` on a line above `b` stays, one on a
+    line at or below `e` moves with its line, and in both cases it designates the very same line of text -/
+theorem mark_stable (lb lb' : Lb) (s : Option Bytes) (b e c : Nat) (m off : Int)
+    (hc1 : 97 ≤ c) (hc2 : c ≤ 122) (hbe : b ≤ e) (he : e ≤ lb.lines.length)
+    (h : edit lb s b e = some lb') (hj : jump lb c = some (m, off)) :
+    (m < b → jump lb' c = some (m, off) ∧ lb'.lines[m.toNat]? = lb.lines[m.toNat]?) ∧
+    (m ≥ e → jump lb' c = some (m + (optLines s).length - ((e - b : Nat) : Int), off) ∧
+      lb'.lines[(m + (optLines s).length - ((e - b : Nat) : Int)).toNat]? = lb.lines[m.toNat]?) := by
+  rw [jump_letter lb c hc1 hc2] at hj
+  split at hj
+  · cases hj
+  · rename_i hm0
+    simp only [Option.some.injEq, Prod.mk.injEq] at hj
+    obtain ⟨hm, hoff⟩ := hj
+    obtain ⟨r1, r2⟩ := lbuf_edit_mark lb lb' s b e (c - 97) hbe he h (by omega) (by omega) (by omega)
+    have hfr := lbuf_edit_frame lb lb' s b e hbe he h
+    rw [hm] at r1 hm0
+    constructor
+    · intro hlt
+      constructor
+      · rw [jump_letter lb' c hc1 hc2, r1, r2, updMark_before _ _ _ _ _ hlt, if_neg hm0, hoff]
+      · rw [hfr]
+        exact frame_get_before lb.lines (optLines s) b e m.toNat (by omega) (by omega)
+    · intro hge
+      have hup := updMark_after s.isNone b (optLines s).length (e - b) m (by omega)
+      constructor
+      · rw [jump_letter lb' c hc1 hc2, r1, r2, hup, if_neg (by omega), hoff]
+      · rw [hfr]
+        have := frame_get_after lb.lines (optLines s) b e m.toNat hbe (by omega) he
+        rw [← this]
+        congr 1
+        omega
+
+/-- `lbuf_edit` and a mark `a`–`z` inside the replaced range -/
+theorem mark_in_deleted_range_edit (lb lb' : Lb) (s : Option Bytes) (b e c : Nat) (m off : Int)
+    (hc1 : 97 ≤ c) (hc2 : c ≤ 122) (hbe : b ≤ e) (he : e ≤ lb.lines.length)
+    (h : edit lb s b e = some lb') (hj : jump lb c = some (m, off)) (h1 : (b : Int) ≤ m) (h2 : m < e) :
+    lb'.mark.getD (c - 97) (-1) = (if s.isNone then -1 else min m ((b : Int) + (optLines s).length - 1)) ∧
+    (s = none → jump lb' c = none) := by
+  rw [jump_letter lb c hc1 hc2] at hj
+  split at hj
+  · cases hj
+  · simp only [Option.some.injEq, Prod.mk.injEq] at hj
+    obtain ⟨hm, hoff⟩ := hj
+    obtain ⟨r1, r2⟩ := lbuf_edit_mark lb lb' s b e (c - 97) hbe he h (by omega) (by omega) (by omega)
+    rw [hm] at r1
+    have hr : lb'.mark.getD (c - 97) (-1) = (if s.isNone then -1 else min m ((b : Int) + (optLines s).length - 1)) := by
+      rw [r1]
+      cases s with
+      | none => exact updMark_deleted _ _ _ _ h1 (by omega)
+      | some x => exact updMark_replaced _ _ _ _ h1 (by omega)
+    refine ⟨hr, fun hs => ?_⟩
+    rw [jump_letter lb' c hc1 hc2, hr, hs]
+    simp
+
+/-! ## examples on a three-line buffer `a`, `b`, `c` -/
+
+def ed3 : Ed := { bufs := [some { path := [], lb := { lines := [[97, 10], [98, 10], [99, 10]] } }] }
+
+/-- `2d` -/
+example : (runCmd 1 ed3 "ec_delete" [50] [100] [] none).map (fun r => (r.1, lines r.2, r.2.xrow)) =
+    some (0, [[97, 10], [99, 10]], 1) := by
+  rw [runCmd]; decide
+
+/-- `0a` with the text `x` -/
+example : (runCmd 1 ed3 "ec_insert" [48] [97] [] (some [120, 10])).map (fun r => (r.1, lines r.2, r.2.xrow)) =
+    some (0, [[120, 10], [97, 10], [98, 10], [99, 10]], 0) := by
+  rw [runCmd]; decide
+
+/-- `'xd` with the mark `x` unset: rejected, text unchanged -/
+example : (runCmd 1 ed3 "ec_delete" [39, 120] [100] [] none).map (fun r => (r.1, lines r.2, r.2.xrow)) =
+    some (1, [[97, 10], [98, 10], [99, 10]], 0) := by
+  rw [runCmd]; decide
+
+/-- `2,3c` with the text `x`, `y` -/
+example : (runCmd 1 ed3 "ec_insert" [50, 44, 51] [99] [] (some [120, 10, 121, 10])).map
+    (fun r => (r.1, lines r.2, r.2.xrow)) = some (0, [[97, 10], [120, 10], [121, 10]], 2) := by
+  rw [runCmd]; decide
+
+/-- `5d`: past the end, rejected -/
+example : (runCmd 1 ed3 "ec_delete" [53] [100] [] none).map (fun r => (r.1, lines r.2)) =
+    some (1, [[97, 10], [98, 10], [99, 10]]) := by
+  rw [runCmd]; decide
+
+/-- `2,3p` -/
+example : (runCmd 1 ed3 "ec_print" [50, 44, 51] [112] [] none).map (fun r => (r.1, r.2.out, r.2.xrow)) =
+    some (0, [98, 10, 99, 10], 2) := by
+  rw [runCmd]; decide
+
+/-- `3ka` then `1d`: the mark follows its line -/
+example : ((Lbuf.edit (setMark { lines := [[97, 10], [98, 10], [99, 10]] } 97 2 0) none 0 1).bind
+    (fun lb => jump lb 97)) = some (1, 0) := by decide
+
 end Neatvi.Props.C06
